@@ -24,7 +24,7 @@ Example C11_example :
 Proof. exists (mkRunner (Some 100) 8 (RExact 3)). vm_compute. repeat split. Qed.
 
 Local Close Scope N_scope.
-From OrxPar Require Import Machine MachineP Program ExactChunks.
+From OrxPar Require Import Machine MachineP Program ExactChunks MachineIter MachineIterP MasterIter ExactChunksIter.
 
 (** the machine: with a resolved [Exact x], in every reachable state of every schedule (early exit
     and panics included) every pull of every worker starts at a multiple of [x] and takes exactly
@@ -56,3 +56,17 @@ Proof.
 Qed.
 Print Assumptions C11_block_one_thread.
 
+(** the same over by-value iterator sources, with the ordered and with the first-come handle: a
+    pull is shorter than [x] only if it exhausted the user's iterator *)
+Theorem C11_every_pull_exact_iter : forall (r : Runner) (x : N) (len : nat) (ordered : bool)
+  (stop panics : nat -> bool) (sched : list nat) (w : iworker) (b k : nat),
+  runner_wf r -> r_chunk r = RExact x ->
+  In w (iws (imrunp r len ordered stop panics sched)) -> In (b, k) (ipulls w) ->
+  icsize w = N.to_nat x /\ (exists q, b = q * N.to_nat x) /\ k <= N.to_nat x /\
+  (k = N.to_nat x \/ b + k = len).
+Proof.
+  intros r x len ordered stop panics sched w b k Hw Hx Hin Hp.
+  replace (N.to_nat x) with (m_c0 r) by (unfold m_c0; rewrite Hx; reflexivity).
+  eapply exact_pulls_iter; eauto.
+Qed.
+Print Assumptions C11_every_pull_exact_iter.
